@@ -23,6 +23,8 @@ pub fn run() {
             continue;
         }
         let a = kv(&line);
+        // a sequence takes a few seconds at most: a receive that blocks for good ends the process within a minute
+        unsafe { libc::alarm(60) };
         let id: u64 = a["id"].parse().unwrap();
         let (tx, rx) = ipc::channel::<Vec<u8>>().unwrap();
         let mut tx = Some(tx);
